@@ -24,6 +24,8 @@ CLAIMS = {
             "WHO/DOM/MPT/ORD/PAIRF/FIN rules over clang AST/CFG", "3 C09"),
     "C10": ("protocol-shape rules on Future.hpp/Future.cpp: publication order (call once -> result -> state -> signal -> delete; join before reading; startProc prepares the future before handing the job over), reset-and-recheck before every queue wait, wake-up after every hand-off, atomic-only ring indices with fill-before-publish and ticket-before-CAS, one dispatch per pop, spin-lock release and re-read in the lazy pool creation, worker list under the mutex; liveness (every join eventually returns), lock-freedom and exactly-once under all interleavings of the ring are NOT decided",
             "ORD/MPT/DOM/WHO path rules over clang AST/CFG", "3 C10"),
+    "C12": ("structural rules on Callback: slot fields consulted only under a state test, physical removal only with no active emission and marking sets dirty, both sides updated together, all nine emit arities test state before and `invalidated` after each invocation and agree with each other, activation chain push/pop/propagation, ~Emitter invalidates first, Emitter/Listener not copyable; the invocation log against a model of live connections over all nested histories is NOT decided",
+            "DOM/MPT/PAIRF rules + sibling comparison over clang AST/CFG", "3 C12"),
     "C11": ("protocol-shape rules on the POSIX implementation: lock-state dataflow (pairing on every path, condition waits only with the lock), flag accesses inside the critical section, waits re-check in a loop and Monitor consumes the flag, set publishes under the lock then notifies (broadcast vs signal), timed waits fail only through the timed primitive, deadline arithmetic by dimension typing + interval analysis + sibling agreement, recursive mutex attribute, Thread handle/join discipline, storage sizes, thin Semaphore mapping; the contracts under all interleavings as such, fairness and the pthread primitives' behaviour are NOT decided",
             "lock-state dataflow + DOM/MPT rules + unit typing + interval analysis over clang AST/CFG", "3 C11"),
     "C08": ("path and pairing rules over every Buffer member: terminator after every end update on owning paths, ownership<->capacity pairing, allocation X+1 with _capacity X, release/re-seat pairing, complete swap, rule of three, and linear-inequality entailment (own Fourier-Motzkin over dominating guards + class invariant) that every copy/move target and terminator store lies inside the allocation; content equality with a reference byte queue is NOT decided",
